@@ -54,12 +54,8 @@ Definition include_here (s : str) : option (str * str) :=
     end
   end.
 
-(* IncludeRegex is not anchored at the start: leftmost position that matches *)
-Fixpoint m_include (s : str) : option (str * str) :=
-  match include_here s with
-  | Some r => Some r
-  | None => match s with [] => None | _ :: s' => m_include s' end
-  end.
+(* IncludeRegex is anchored at the start of the line (like every other directive pattern) *)
+Definition m_include (s : str) : option (str * str) := include_here s.
 
 (* IncludeExceptRegex *)
 (* lazy group 2: shortest prefix of r whose remainder satisfies the tail *)
